@@ -9,6 +9,7 @@ KERNELS = {
  "C02": "DelimitedBuffer._get_buffer_extractor / _modify_for_carriage_return: the field table (starts, ends, CR exclusion, entry starts/ends) for any rows x columns, LF and CRLF",
  "C03": "MultiLineFastaBuffer.from_data wrapping arithmetic and line table for any width W>=1 (prefix of the function); NpBufferedWriter.write: header emitted iff due and the class invariant 'flag set iff header emitted' (8 instances) - hence the header is written exactly once over any sequence of writes",
  "C04": "TextThroughputExtractor._make_contigous / __getitem__ / get_fields_by_range / concatenate (2 and 3 buffers): rows and fields kept, offsets re-based",
+ "C05": "the store bookkeeping of the lazy table class built by create_lazy_class for a real entry type (__replace__, __setattr__, __getitem__, __getattr__) as finite-map VCs over every set/cached configuration: overlay and cache stay aligned, the operand is never modified",
  "C06": "AlphabetEncoding._initialize for an arbitrary alphabet of 1, 2 and 4 symbolic symbols against the spec lookup for every byte; _encode (raises iff a foreign byte) and _decode against that contract",
  "C07": "strops.split (single separator): rows are exactly the text between consecutive separators (telescoping lemma by induction)",
  "C08": "extend_to_size and clip (pointwise clauses)",
@@ -25,7 +26,6 @@ KERNELS = {
  "C20": "frame conditions (heap model): str_to_int, str_to_float (callees that overwrite their argument only receive copies), merge_intervals",
 }
 BOUNDED_ONLY = {
- "C05": "lazy vs eager lock-step over operation programs",
  "C19": "table operations vs list-of-tuples model over operation programs",
 }
 checks = []
